@@ -454,12 +454,12 @@ def known_match(entry, case, fail):
 
 
 def subchecks(ctx):
-    return [Sub("reports", case_gen(), prop, {"quick": 60, "thorough": 1500},
+    return [Sub("reports", case_gen(), prop, {"quick": 120, "thorough": 1500},
                 nontrivial=lambda c: True,
                 classes=lambda c: ["kind:" + c["content"]["kind"], "loop:%d" % c["flags"][0], "unc:%d" % c["flags"][4]],
                 known_match=known_match,
                 rule="input x flag combination, executed in all five output formats and through the library"),
-            Sub("stale_output", stale_case(), prop_stale, {"quick": 60, "thorough": 1500},
+            Sub("stale_output", stale_case(), prop_stale, {"quick": 150, "thorough": 1500},
                 nontrivial=lambda c: True,
                 classes=lambda c: ["kind:" + c["content"]["kind"], "fmt:%d" % c["fmt"], "stale-blocks:%d" % len(c["stale"])],
                 rule="input that already contains LOWEN / SPhenoLowEnergy / GM2CalcOutput blocks with stale values at random "
